@@ -13,7 +13,7 @@ Theorem C18_sorted_is_stable_sort_of_unsorted :
   read_lines render rs_init data = (ls, part, st, rsf) ->
   print_events render data = (concat (map snd ls) ++ part, st) /\
   print_sorted render SrcFacts.sorted_flushes_on_error data = (concat (map snd (stable_sort ls)), st).
-Proof. exact sorted_is_stable_sort_of_unsorted. Qed.
+Proof. generalize (eq_refl : SrcFacts.sorted_flushes_on_error = true). generalize SrcFacts.sorted_flushes_on_error. intros b_ ->. exact sorted_is_stable_sort_of_unsorted. Qed.
 Print Assumptions C18_sorted_is_stable_sort_of_unsorted.
 
 (** [stable_sort] is sorted by non-decreasing clock, a permutation of its input, and keeps the input order
@@ -36,4 +36,4 @@ Print Assumptions C18_without_flush_refuted.
 
 Example C18_nonvacuous :
   print_sorted w18_render SrcFacts.sorted_flushes_on_error w18_log = ([49; 48; 10; 51; 48; 10], EndErr (ESizeHdr 3)).
-Proof. exact sorted_with_flush_witness. Qed.
+Proof. generalize (eq_refl : SrcFacts.sorted_flushes_on_error = true). generalize SrcFacts.sorted_flushes_on_error. intros b_ ->. exact sorted_with_flush_witness. Qed.
